@@ -82,8 +82,11 @@ class PageHinkley(StreamingDetector):
         if self.drift_state == "drift":
             self.reset()
 
+        prior_cols, prior_dim = self._input_cols, self._input_col_dim
         X, _, _ = super()._validate_input(X, None, None)
         if len(X.shape) > 1 and X.shape[1] != 1:
+            # a rejected input must not constrain later input
+            self._input_cols, self._input_col_dim = prior_cols, prior_dim
             raise ValueError("Page-Hinkley should only be used to monitor 1 variable.")
         super().update(X, None, None)
 
